@@ -331,6 +331,20 @@ def helper_oracle(ctx, rng):
                     for v, got in res.items():
                         if got.shape != exp.shape or not np.array_equal(got, exp):
                             _report_helper(ctx, name, func, v, n, tr, args, got, exp)
+    # jump: (-1) ** w.idx[i] * args[i]
+    from skfem.assembly.form.form import FormExtraParams
+    for idx in (None, (0, 1), (1, 0), (0,), (1,)):
+        a1, a2 = _rand_int(rng, (2, 3)), _rand_int(rng, (2, 3))
+        w = FormExtraParams({} if idx is None else {'idx': idx})
+        argsj = (a1, a2) if idx is None or len(idx) == 2 else (a1,)
+        got = H.jump(w, *argsj)
+        got = list(got) if isinstance(got, (tuple, list)) else [got]
+        exp = [a if idx is None else (-1.) ** idx[k] * a for k, a in enumerate(argsj)]
+        ctx.count(('jump', idx, a1.tolist(), a2.tolist()))
+        ctx.hist('oracle_helper', 'jump')
+        if len(got) != len(exp) or not all(np.array_equal(np.asarray(g), e) for g, e in zip(got, exp)):
+            ctx.fail(f'np-jump:idx={idx}', 'helper jump differs from (-1)**idx[i] * arg_i',
+                     {'idx': idx, 'args': [a.tolist() for a in argsj], 'got': [np.asarray(g).tolist() for g in got]})
     # inverse: exact on unimodular-like input, and against numpy.linalg on general well-conditioned integer input
     for n in (2, 3):
         for tr in trails:
@@ -544,6 +558,8 @@ def run(ctx):
                        'non-trivial = extent >= 2 resp. at least 2 cells; distinct by content')
     ctx.extra['exhaustive_note'] = ('helper theorems: ring/field identities for ALL entries; extents 2 and 3 (closed forms) or every n '
                                '(einsum helpers, finite-sum algebra); NonlinearForm bookkeeping: all Nbfun, nt, dof tables by induction over folds')
+    ctx.extra['helpers_not_covered'] = {'skfem/helpers.py': sorted(c20_tr.NP_SKIP), 'skfem/autodiff/helpers.py': sorted(c20_tr.JX_SKIP),
+                                        'note': 'every other module-level function is translated; an unlisted new function is a TranslateError'}
     rng = np_seed(ctx)
     ctx.ensure_static()
     # 1. regenerate
